@@ -511,6 +511,12 @@ def run(prop, tier):
         import reg_stream
         reg_stream.run(ck, prop, tier, ex, ps)
 
+    if prop in ("C08", "C03", "C20"):
+        # a process with two frontends of different queue types (bounded dropping + unbounded blocking): harness h2_mixed against
+        # `driver mixed trace` + the property oracles (tools/mixed_stream.py)
+        import mixed_stream
+        mixed_stream.run(ck, prop, tier, ex, ps)
+
     mine_or = [o for o in res["oracle"] if o["prop"] == prop]
     mine_mm = [m for m in res["mismatches"] if prop in m["props"]]
     if res["aborts"]:
@@ -605,6 +611,9 @@ def replay(prop, path):
     if "sinkreg" in open(path).readline():
         import sinkreg_stream
         return sinkreg_stream.replay(prop, path)
+    if open(path).readline().startswith("# h2_mixed"):
+        import mixed_stream
+        return mixed_stream.replay(prop, path)
     if open(path).readline().startswith("# h1_reg"):
         import reg_stream
         return reg_stream.replay(prop, path)
